@@ -70,7 +70,25 @@ REQUESTS = {
     # no value: the products of wavefunctions inside the precursor states are scanned for indices
     # that occur more than twice in a term (two factors sharing their contracted indices)
     "wf_products": ("", lambda A: 0),
+    # TensorNames.rename_tensors on an expression written with the default names
+    "rename_cfg": ("", lambda A: _rename_cfg()),
 }
+
+
+def _rename_cfg():
+    from adcgen import Expr
+    from adcgen.indices import get_symbols
+    from adcgen.tensor_names import tensor_names
+    from adcgen.sympy_objects import AntiSymmetricTensor, Amplitude, NonSymmetricTensor
+    i, j, a, b = get_symbols("ijab")
+    e = (Amplitude("X", (a,), (i,)) * Amplitude("Y", (b,), (j,)) * AntiSymmetricTensor("d", (a,), (b,))
+         * AntiSymmetricTensor("f", (i,), (j,))
+         + AntiSymmetricTensor("V", (a, b), (i, j)) * Amplitude("t1", (a, b), (i, j)) / 4
+         + NonSymmetricTensor("e", (i,)) * AntiSymmetricTensor("p2", (i,), (j,)) * AntiSymmetricTensor("f", (j,), (i,))
+         + 2 * AntiSymmetricTensor("D", (i,), (a,)) * Amplitude("X", (a,), (i,))
+         + AntiSymmetricTensor("v", (a, b), (i, j)) * Amplitude("t2cc", (a, b), (i, j)) * Amplitude("Y", (a,), (i,))
+         * Amplitude("Y", (b,), (j,)))
+    return tensor_names.rename_tensors(Expr(e)).sympy
 
 
 def overfull_terms(expr):
